@@ -519,6 +519,13 @@ def evalObs (facts : List String) (r : Regs) (args : List String) : Option Strin
   | ["digest", e] => (r.env e).map fun e => dhex e.digest
   | ["bytes", e] => (r.env e).map fun e => hexOfBytes (encode e)
   | ["ur", e] => (r.env e).map fun e => Ur.stringOfText (urStringOf e)
+  | ["saltrange", e] => (r.env e).map fun e =>
+    -- `add_salt_using`: the size of the tagged encoding, the two products rounded as the library rounds them (IEEE doubles)
+    let n := (encode e).length
+    let c5 := (Float.ofNat n * 0.05).ceil.toUInt64.toNat
+    let c25 := (Float.ofNat n * 0.25).ceil.toUInt64.toNat
+    let rg := saltRange c5 c25
+    toString rg.1 ++ " " ++ toString rg.2
   | ["sdigest", e] => (r.env e).map fun e => dhex (structuralDigest H e)
   | ["count", e] => (r.env e).map fun e => toString (elementsCount e)
   | ["walk", e, mode] => do
